@@ -5,6 +5,16 @@ ROOT = os.path.dirname(os.path.dirname(os.path.abspath(__file__)))
 ALL = ["C%02d" % i for i in range(1, 21)]
 
 CHECKS = {
+ "C04": dict(
+   technique="TLA+ IndexScenario spec (Kind = fixed): event machine over literal / const / named-const / let / reassigned / branch-dependent / loop-carried / negated / opaque indices with the prescribed observation per value of an opaque parameter; TLC emits one scenario per transition of the abstract state graph; scenarios compiled and run by the real compiler (in-range scenarios batched)",
+   category="model_checking",
+   text="Transition coverage of the index-state graph for scenarios of <= 4 events over [3]i32 with indices in [-4, 3], stratified by spec-level class: an execution that indexes outside is rejected or panics; an accepted in-range scenario prints exactly the indexed elements (so a wrong element or a write to a neighbour is visible). Rejection with the documented constant-index rule is allowed and counted.",
+   note="The opaque parameter reaches the function through an identity call; output comparison after every access is the observation of 'touches exactly the element'."),
+ "C08": dict(
+   technique="TLA+ IndexScenario spec (Kind = dyn, str): literal construction, append, element assignment, indexing with literal / const / let / opaque / negative indices, len; prescribed observation (lines before the first out-of-range access, panic); one scenario per transition; compiled natively and run (in-range batched, panicking ones alone)",
+   category="model_checking",
+   text="Transition coverage for histories of <= 4 events over lengths 3..5 (dynamic arrays) and strings, indices in [-len-1, len]: every in-range scenario must be ACCEPTED and print the stored elements; an out-of-range access must be rejected or stop with a non-zero status, 'index out of bounds' on stderr and exactly the earlier lines delivered (stdout captured through a pipe).",
+   note="Native back end only in this check (C02 compares the wasm back end); a rejection of an in-range scenario counts only with a bounds-class diagnostic."),
  "C12": dict(
    technique="TLA+ Visibility spec (AllowedSym / AllowedField) with the enumerated product symbol kind x case x access site x syntactic context x import shape; every case rendered as a multi-file project and compiled by the real front end",
    category="model_checking",
